@@ -102,19 +102,28 @@ def run(ctx):
     ctx.require(n.get("pbkdf2/prf", 0) > 100, "fewer than 100 PBKDF2 custom-prf evaluations")
     ctx.require(n.get("pbkdf2/multiblock", 0) > 500, "PBKDF2: too few multi-block outputs")
     ctx.require(n.get("pbkdf2/longpw", 0) > 100, "PBKDF2: too few passwords longer than the HMAC block")
-    ctx.require(n.get("hkdf/refused", 0) >= 10 and n.get("hkdf/ok", 0) > 500,
-                "HKDF: refusals or acceptances missing")
-    ctx.require(n.get("hkdf/maxlen-ok", 0) >= 10, "HKDF: 255*hLen outputs not exercised")
+    def refusals(counter, vkey):
+        # refusal probes executed: refused ones plus the ones reported as wrongly accepted
+        return n.get(counter, 0) + a.viol_count.get(vkey, 0)
+    ctx.require(refusals("hkdf/refused", "C12/hkdf/too-long-accepted") >= 10 and n.get("hkdf/ok", 0) > 500,
+                "HKDF: refusal probes or acceptances missing")
+    ctx.require(n.get("hkdf/maxlen-ok", 0) + a.viol_count.get("C12/hkdf/valid-length-refused", 0) >= 10,
+                "HKDF: 255*hLen outputs not exercised")
     ctx.require(n.get("hkdf/multikey", 0) > 100, "HKDF: multi-key outputs missing")
-    ctx.require(n.get("pbkdf1/refused-too-long", 0) >= 3 and n.get("pbkdf1/refused-salt", 0) >= 3
+    ctx.require(refusals("pbkdf1/refused-too-long", "C12/pbkdf1/too-long-accepted") >= 3
+                and refusals("pbkdf1/refused-salt", "C12/pbkdf1/bad-salt-length-accepted") >= 3
                 and n.get("pbkdf1/ok", 0) > 50, "PBKDF1: outcome classes missing")
-    ctx.require(n.get("scrypt/ok", 0) > 300 and n.get("scrypt/refused-N", 0) > 100
-                and n.get("scrypt/refused-Nbig", 0) >= 2 and n.get("scrypt/refused-pr", 0) >= 2,
+    ctx.require(n.get("scrypt/ok", 0) > 300
+                and refusals("scrypt/refused-N", "C12/scrypt/N-not-power-of-two-accepted") > 100
+                and refusals("scrypt/refused-Nbig", "C12/scrypt/N-too-large-accepted") >= 2
+                and refusals("scrypt/refused-pr", "C12/scrypt/p-r-too-large-accepted") >= 2,
                 "scrypt: outcome classes missing")
     ctx.require(n.get("scrypt/multikey", 0) >= 10, "scrypt: multi-key outputs missing")
     ctx.require(n.get("bcrypt/ok", 0) >= 20, "bcrypt: fewer than 20 hashes compared")
-    for k in ("bcrypt/refused-cost", "bcrypt/refused-salt", "bcrypt/refused-long", "bcrypt/refused-nul"):
-        ctx.require(n.get(k, 0) >= 2, "bcrypt: refusal class %s not observed" % k)
+    for k, vk in (("bcrypt/refused-cost", "C12/bcrypt/cost-out-of-range-accepted"),
+                  ("bcrypt/refused-salt", "C12/bcrypt/bad-salt-length-accepted"),
+                  ("bcrypt/refused-long", "C12/bcrypt/password-over-72-accepted")):
+        ctx.require(refusals(k, vk) >= 2, "bcrypt: refusal class %s not exercised" % k)
     ctx.require(n.get("bcrypt_check/accept", 0) >= 10 and n.get("bcrypt_check/reject", 0) >= 100,
                 "bcrypt_check: accept or reject class missing")
     ctx.require(n.get("bcrypt_check/mut-reject", 0) >= 30, "bcrypt_check: mutated hashes not exercised")
@@ -138,7 +147,7 @@ def run(ctx):
                "salts, labels; all *lengths/shapes* of the stated grids are enumerated")
     ctx.assume("PBKDF2/PBKDF1 iteration counts only {1,2,3,1000}; scrypt N <= 2^14, r <= 8, p <= 3 for computed "
                "outputs (N = 2^31 and the largest legal p*r are not computed: memory)")
-    ctx.assume("bcrypt costs computed: 4..6 only (pure-Python reference); costs 7..31 are covered by the "
+    ctx.assume("bcrypt costs computed: 4..6 (quick) and 4..7 (thorough) only (pure-Python reference); costs above are covered by the "
                "range check only")
     ctx.assume("'refused' means any exception; the exception class is logged as an observation when odd")
     ctx.assume("S2V only over AES (128-bit block); SP 800-108 only with the 32-bit counter/length layout the "
